@@ -381,6 +381,7 @@ mod native {
         all_strings(b"ilde01-:a", if deep { 8 } else { 7 }, &mut run);   // every construct: 5 380 840 inputs (thorough 48 427 561)
         all_strings(b"d0:e", if deep { 13 } else { 11 }, &mut run);      // dictionaries with (repeated) empty keys: 5 592 405 (thorough 89 478 485)
         all_strings(b"l1:ei", if deep { 10 } else { 9 }, &mut run);      // nested lists / strings / ints: 2 441 406 (thorough 12 207 031)
+        all_strings(b"i1e:0\n ", if deep { 8 } else { 7 }, &mut run);     // whitespace inside / after values (never bencode syntax): 960 800 (thorough 6 725 601)
         // integers at the edges of i64 / u64 (in and out of range, signed, with leading zeros, bare and inside a list)
         for digits in ["9223372036854775806", "9223372036854775807", "9223372036854775808", "9223372036854775809",
                        "18446744073709551614", "18446744073709551615", "18446744073709551616", "99999999999999999999",
